@@ -127,6 +127,9 @@ func (w *world) portsIn(s string) string {
 }
 
 func (w *world) portsOut(s string) string {
+	if !strings.HasPrefix(s, "tcp") {
+		return s // only TCP URIs name a listener (an ephemeral port may coincide with a UDP port)
+	}
 	for i, l := range w.lis {
 		s = strings.ReplaceAll(s, fmt.Sprintf(":%d", l.Addr().(*net.TCPAddr).Port), fmt.Sprintf(":{T%d}", i+1))
 	}
